@@ -152,6 +152,7 @@ struct FakeEndpoint {
     std::mutex mu;
     Mode mode = Mode::Error;
     Bytes body;
+    long xvar = 0;                       // which extra response headers a hostile endpoint adds (0: none)
     int hits = 0;
     std::vector<std::string> seen;       // "COMMAND|FALLBACK|BOOTSTRAP" per request
     static std::atomic<int> order;       // global contact counter (which endpoint was contacted last)
@@ -166,7 +167,27 @@ struct FakeEndpoint {
         port = ntohs(ad.sin_port);
         th = std::thread([this] { loop(); });
     }
-    void set(Mode m, Bytes b) { std::scoped_lock lk(mu); mode = m; body = std::move(b); hits = 0; seen.clear(); last_order = 0; }
+    void set(Mode m, Bytes b, long xv = 0) { std::scoped_lock lk(mu); mode = m; body = std::move(b); xvar = xv; hits = 0; seen.clear(); last_order = 0; }
+    // A remote endpoint may add any header line to its answer.  The keys come from VERIF_XHDRS (every key the CLI / control client
+    // sources look up in a response, harvested by checks/clifetch.py); the values claim whatever a lying endpoint would claim.
+    static std::string extra_headers(long xv, const Bytes& b) {
+        if (xv % 3 == 0) return "";
+        static const std::vector<std::string> keys = [] {
+            std::vector<std::string> k; const char* e = std::getenv("VERIF_XHDRS");
+            std::stringstream ss(e ? e : ""); std::string it;
+            while (std::getline(ss, it, ',')) if (!it.empty()) k.push_back(it);
+            return k; }();
+        static const char* std_keys[] = {"STATUS", "CODE", "SIZE", "STREAM", "PAYLOAD-LENGTH", "OUTPUT", "MESSAGE", "HINT"};
+        const std::string vals[] = {"1", "true", "OK", "yes", std::to_string(b.size()), hex(sha(b))};
+        std::string h; long i = xv;
+        for (const auto& k : keys) {
+            bool standard = false;
+            for (auto* s : std_keys) if (k == s) standard = true;
+            if (standard) continue;
+            h += k + ":" + vals[static_cast<size_t>(i++ % 6)] + "\n";
+        }
+        return h;
+    }
     void shutdown() { stop = true; ::shutdown(lfd, SHUT_RDWR); ::close(lfd); if (th.joinable()) th.join(); }
     static bool send_all(int fd, const void* p, size_t n) {
         const char* c = static_cast<const char*>(p);
@@ -195,17 +216,17 @@ struct FakeEndpoint {
             }
             if (ok) {
                 if (f.count("PAYLOAD-LENGTH")) { size_t n = std::strtoull(f["PAYLOAD-LENGTH"].c_str(), nullptr, 10); char buf[4096]; while (n) { ssize_t k = ::recv(c, buf, std::min(n, sizeof buf), 0); if (k <= 0) break; n -= static_cast<size_t>(k); } }
-                Mode m; Bytes b;
-                { std::scoped_lock lk(mu); m = mode; b = body; ++hits; last_order = ++order; seen.push_back(f["COMMAND"] + "|" + (f.count("FALLBACK") ? "F" : "-") + "|" + (f.count("BOOTSTRAP") ? "B" : "-")); }
+                Mode m; Bytes b; long xv;
+                { std::scoped_lock lk(mu); m = mode; b = body; xv = xvar; ++hits; last_order = ++order; seen.push_back(f["COMMAND"] + "|" + (f.count("FALLBACK") ? "F" : "-") + "|" + (f.count("BOOTSTRAP") ? "B" : "-")); }
                 std::string h;
                 if (f["COMMAND"] != "FETCH" || m == Mode::Error) {
                     h = "STATUS:ERROR\nCODE:ERR_FETCH_CHUNK_MISSING\nMESSAGE:Chunk not available locally\nHINT:none\n\n";
                     send_all(c, h.data(), h.size());
                 } else if (m == Mode::NoPayload) {
-                    h = "STATUS:OK\nCODE:OK_FETCH\nOUTPUT:/nonexistent/verif-daemon-side\nSIZE:" + std::to_string(b.size()) + "\n\n";
+                    h = "STATUS:OK\nCODE:OK_FETCH\nOUTPUT:/nonexistent/verif-daemon-side\nSIZE:" + std::to_string(b.size()) + "\n" + extra_headers(xv, b) + "\n";
                     send_all(c, h.data(), h.size());
                 } else {
-                    h = "STATUS:OK\nCODE:OK_FETCH\nSIZE:" + std::to_string(b.size()) + "\nSTREAM:CLIENT\nPAYLOAD-LENGTH:" + std::to_string(b.size()) + "\n\n";
+                    h = "STATUS:OK\nCODE:OK_FETCH\nSIZE:" + std::to_string(b.size()) + "\nSTREAM:CLIENT\n" + extra_headers(xv, b) + "PAYLOAD-LENGTH:" + std::to_string(b.size()) + "\n\n";
                     send_all(c, h.data(), h.size());
                     size_t n = m == Mode::ShortStream ? b.size() / 2 : b.size();
                     if (n) send_all(c, b.data(), n);
@@ -522,7 +543,7 @@ void do_case(const ev::Cmd& c) {
             } else {
                 auto& f = *W.fake.at(h.path);
                 using M = FakeEndpoint::Mode;
-                f.set(h.resp == "error" ? M::Error : h.resp == "nopayload" ? M::NoPayload : h.resp == "shortstream" ? M::ShortStream : M::Bytes, h.body);
+                f.set(h.resp == "error" ? M::Error : h.resp == "nopayload" ? M::NoPayload : h.resp == "shortstream" ? M::ShortStream : M::Bytes, h.body, var + static_cast<long>(&h - chain.data()));
                 port = f.port;
             }
         }
